@@ -53,7 +53,7 @@ pub fn stub_transform_ls(block: u128, table: &Table) -> u128 {
 
 // ---------------------------------------------------------------------------------------------------------- leaves
 
-//@ harness name=kuz_soft_leaf_consts prop=C07,C20 tier=quick bits=16 est=25 desc="L: P[x] == pi(x), P_INV[x] == pi^-1(x), pi^-1(pi(x)) == x == pi(pi^-1(x)) for all octets x; KEYGEN[i] == C_{i+1} = L(Vec128(i+1)) for symbolic i in 0..32 (field arithmetic of the oracle computed)"
+//@ harness name=kuz_soft_leaf_consts prop=C07,C20 tier=quick bits=16 est=30 desc="L: P[x] == pi(x), P_INV[x] == pi^-1(x), pi^-1(pi(x)) == x == pi(pi^-1(x)) for all octets x; KEYGEN[i] == C_{i+1} = L(Vec128(i+1)) for symbolic i in 0..32 (field arithmetic of the oracle computed)"
 verif_harness! {
     name: kuz_soft_leaf_consts,
     bytes: 2,
@@ -67,7 +67,7 @@ verif_harness! {
     }
 }
 
-//@ harness name=kuz_soft_leaf_sub_bytes prop=C07,C20 tier=quick bits=128 quick=C20 est=25 desc="L: sub_bytes(b, &P) == oracle S(b) and sub_bytes(b, &P_INV) == oracle S^-1(b) for all 2^128 b (u128 little-endian view)"
+//@ harness name=kuz_soft_leaf_sub_bytes prop=C07,C20 tier=quick bits=128 quick=C20 est=30 desc="L: sub_bytes(b, &P) == oracle S(b) and sub_bytes(b, &P_INV) == oracle S^-1(b) for all 2^128 b (u128 little-endian view)"
 verif_harness! {
     name: kuz_soft_leaf_sub_bytes,
     bytes: 16,
@@ -133,7 +133,7 @@ verif_harness! {
 
 // ---------------------------------------------------------------------------------------------------------- key schedule
 
-//@ harness name=kuz_soft_keys prop=C07,C20 tier=quick bits=256 stub=1 quick=C20 est=65 desc="W: round keys of KuznyechikEnc::new(key) (big_soft expand_enc_keys) == oracle K1..K10 (Feistel key schedule with the computed C_1..C_32) for all 2^256 keys; transform(., &ENC_TABLE) and the oracle's L S are ONE uninterpreted function (32 applications per side)"
+//@ harness name=kuz_soft_keys prop=C07,C20 tier=quick bits=256 stub=1 quick=C20 est=70 desc="W: round keys of KuznyechikEnc::new(key) (big_soft expand_enc_keys) == oracle K1..K10 (Feistel key schedule with the computed C_1..C_32) for all 2^256 keys; transform(., &ENC_TABLE) and the oracle's L S are ONE uninterpreted function (32 applications per side)"
 verif_harness! {
     name: kuz_soft_keys,
     bytes: 32,
@@ -170,7 +170,7 @@ verif_harness! {
     stubs: [(crate::big_soft::backends::transform, stub_transform), (crate::big_soft::backends::sub_bytes, stub_sub_bytes)],
     prop: |inp| { k::w_enc_rk(inp, Route::Val) }
 }
-//@ harness name=kuz_soft_enc_rk_ref prop=C12,C03,C20 tier=quick bits=1408 stub=1 est=60 desc="W: Kuznyechik::from(&enc) (by reference): encrypt_block == oracle E, all round keys, all blocks"
+//@ harness name=kuz_soft_enc_rk_ref prop=C12,C03,C20 tier=quick bits=1408 stub=1 est=50 desc="W: Kuznyechik::from(&enc) (by reference): encrypt_block == oracle E, all round keys, all blocks"
 verif_harness! {
     name: kuz_soft_enc_rk_ref,
     bytes: 160 + 16,
@@ -209,7 +209,7 @@ verif_harness! {
 // conversions); the result must be the standard's D over the encryption round keys.  Assumed: the eight instances of the
 // linearity of L^-1 that the pre-transformed keys rely on (kz_common::lin_instances, lemma kuz_lin_linv).
 
-//@ harness name=kuz_soft_dec_rk_val prop=C07,C03,C12,C20 tier=quick bits=1408 stub=1 quick=C03 est=170 need=6 desc="W: KuznyechikDec::from(enc) (by value, real inv_enc_keys) over arbitrary encryption round keys: decrypt_block == oracle D = X[K1] S^-1 L^-1 X[K2] ... S^-1 L^-1 X[K10], all round keys, all blocks (linearity instances of L^-1 assumed, lemma kuz_lin_linv)"
+//@ harness name=kuz_soft_dec_rk_val prop=C07,C03,C12,C20 tier=quick bits=1408 stub=1 quick=C03 est=190 need=6 desc="W: KuznyechikDec::from(enc) (by value, real inv_enc_keys) over arbitrary encryption round keys: decrypt_block == oracle D = X[K1] S^-1 L^-1 X[K2] ... S^-1 L^-1 X[K10], all round keys, all blocks (linearity instances of L^-1 assumed, lemma kuz_lin_linv)"
 verif_harness! {
     name: kuz_soft_dec_rk_val,
     bytes: 160 + 16,
@@ -217,7 +217,7 @@ verif_harness! {
     stubs: [(crate::big_soft::backends::transform, stub_transform), (crate::big_soft::backends::sub_bytes, stub_sub_bytes)],
     prop: |inp| { k::w_dec_rk(inp, Route::Val, false, true) }
 }
-//@ harness name=kuz_soft_dec_rk_ref prop=C12,C07,C03,C20 tier=quick bits=1408 stub=1 est=155 need=6 desc="W: KuznyechikDec::from(&enc) (by reference): decrypt_block == oracle D, all round keys, all blocks (linearity instances of L^-1 assumed)"
+//@ harness name=kuz_soft_dec_rk_ref prop=C12,C07,C03,C20 tier=quick bits=1408 stub=1 est=160 need=6 desc="W: KuznyechikDec::from(&enc) (by reference): decrypt_block == oracle D, all round keys, all blocks (linearity instances of L^-1 assumed)"
 verif_harness! {
     name: kuz_soft_dec_rk_ref,
     bytes: 160 + 16,
@@ -241,7 +241,7 @@ verif_harness! {
     stubs: [(crate::big_soft::backends::transform, stub_transform), (crate::big_soft::backends::sub_bytes, stub_sub_bytes)],
     prop: |inp| { k::w_dec_rk(inp, Route::Val, true, true) }
 }
-//@ harness name=kuz_soft_both_dec_rk_ref prop=C12,C07,C03,C20 tier=quick bits=1408 stub=1 est=175 need=6 desc="W: Kuznyechik::from(&enc) (by reference): decrypt_block == oracle D, all round keys, all blocks (linearity instances of L^-1 assumed)"
+//@ harness name=kuz_soft_both_dec_rk_ref prop=C12,C07,C03,C20 tier=quick bits=1408 stub=1 est=160 need=6 desc="W: Kuznyechik::from(&enc) (by reference): decrypt_block == oracle D, all round keys, all blocks (linearity instances of L^-1 assumed)"
 verif_harness! {
     name: kuz_soft_both_dec_rk_ref,
     bytes: 160 + 16,
@@ -268,7 +268,7 @@ verif_harness! {
     stubs: [(crate::big_soft::backends::transform, stub_transform), (crate::big_soft::backends::sub_bytes, stub_sub_bytes)],
     prop: |inp| { k::w_roundtrip_rk(inp, 0, true) }
 }
-//@ harness name=kuz_soft_rt_ed prop=C01,C20 tier=quick bits=1408 stub=1 est=245 need=6 desc="W: Kuznyechik::from(&enc): dec(enc(b)) == b, arbitrary round keys, all blocks (S, L uninterpreted inverse pairs, linearity instances of L^-1 assumed)"
+//@ harness name=kuz_soft_rt_ed prop=C01,C20 tier=quick bits=1408 stub=1 est=185 need=6 desc="W: Kuznyechik::from(&enc): dec(enc(b)) == b, arbitrary round keys, all blocks (S, L uninterpreted inverse pairs, linearity instances of L^-1 assumed)"
 verif_harness! {
     name: kuz_soft_rt_ed,
     bytes: 160 + 16,
